@@ -28,6 +28,16 @@ type serviceSnapshot struct {
 	Checks  map[types.CheckID]*structs.HealthCheck
 }
 
+// hasCheck reports whether any service instance on the node carries a check with the given ID.
+func (n *nodeSnapshot) hasCheck(id types.CheckID) bool {
+	for _, svc := range n.Services {
+		if _, ok := svc.Checks[id]; ok {
+			return true
+		}
+	}
+	return false
+}
+
 func newHealthSnapshot(all []structs.CheckServiceNode, partition, peerName string) *healthSnapshot {
 	// For all nodes, services, and checks we override the peer name and
 	// partition to be the local partition and local name for the peer.
